@@ -98,12 +98,8 @@ func runRelay(e *core.Env) {
 	race := e.Part == "relay-race"
 	rec.Rule("relay: one case = (server protocol S, routed client protocol C incl. direct and chained proxies, target behaviour echo / banner-on-eof / speak-first / close-first / sink, initial payload 0/1/1440/1441/65536 handed to the dial, first data at virtual t in {0, 249 ms, 251 ms, never} relative to the 250 ms initial-payload wait, further writes, who half-closes first, dial failure refused / router reject / name-resolution failure, wait disabled or not, IP or domain target); class = (S, C, mode, payload class, timing, failure, wait mode)")
 	dnsOnce.Do(func() { fakeDNS = svx.InstallFakeDNS() })
-	protosS := []string{"socks5", "http", "ss128", "none", "socks5auth", "httpauth", "ss256"}
-	protosC := []string{"direct", "ss128", "none", "socks5", "http", "ss256"}
-	if race {
-		protosS = append(protosS, "ssmulti")
-		protosC = append(protosC, "ssmulti")
-	}
+	protosS := []string{"socks5", "http", "ss128", "none", "socks5auth", "httpauth", "ss256", "ssmulti"}
+	protosC := []string{"direct", "ss128", "none", "socks5", "http", "ss256", "ssmulti"}
 	type job struct{ S, C string }
 	var jobs []job
 	for _, s := range protosS {
